@@ -71,8 +71,49 @@ impl<'a> Leaf<'a> {
     fn key(&self) -> (r: &[u8])
         ensures r@ == self.key_seq(),
     { unimplemented!() }
-    // node.rs Leaf::from_leaf: builds a Leaf over the element's key/value bytes (raw-pointer reads; assumed)
+}
+// the payload bytes of a leaf element in a mapped page, and the bucket header such bytes denote
+impl LeafElement {
+    pub uninterp spec fn val_seq(&self) -> Seq<u8>;
+    // page.rs LeafElement::key / value: raw-pointer reads relative to the element header (ASSUMED: functions of the element)
     #[verifier::external_body]
-    fn from_leaf<'b>(l: &'b LeafElement) -> (r: Leaf<'a>)
+    fn key<'x>(&self) -> (r: &'x [u8])
+        ensures r@ == self.key_seq(),
     { unimplemented!() }
+    #[verifier::external_body]
+    fn value<'x>(&self) -> (r: &'x [u8])
+        ensures r@ == self.val_seq(),
+    { unimplemented!() }
+}
+impl BranchElement {
+    #[verifier::external_body]
+    fn key<'x>(&self) -> (r: &'x [u8])
+        ensures r@ == self.key_seq(),
+    { unimplemented!() }
+}
+pub uninterp spec fn meta_of_bytes(s: Seq<u8>) -> BucketMeta;
+// rule U20: `Bytes::Slice(E)` -> `bytes_slice(E)` (the enum is opaque in this unit; unit bytes proves the view of each variant)
+#[verifier::external_body]
+fn bytes_slice<'x>(s: &'x [u8]) -> (r: Bytes<'x>)
+    ensures bytes_view(r) == s@,
+{ unimplemented!() }
+// rule U21: `E.into()` at type BucketMeta (`From<&[u8]> for BucketMeta`: an aligned copy and a cast; ASSUMED a function of the bytes)
+#[verifier::external_body]
+fn bucket_meta_from(s: &[u8]) -> (r: BucketMeta)
+    ensures r == meta_of_bytes(s@),
+{ unimplemented!() }
+// what an in-memory entry says, for comparison with the element it was built from
+spec fn leaf_mirrors(r: Leaf, l: LeafElement) -> bool {
+    match r {
+        Leaf::Kv(k, v) => l.node_type == 0 && bytes_view(k) == l.key_seq() && bytes_view(v) == l.val_seq(),
+        Leaf::Bucket(n, m) => l.node_type == 1 && bytes_view(n) == l.key_seq() && m == meta_of_bytes(l.val_seq()),
+    }
+}
+// same entry: same key, same kind, same payload
+pub closed spec fn leaf_same(a: Leaf, b: Leaf) -> bool {
+    match (a, b) {
+        (Leaf::Kv(k1, v1), Leaf::Kv(k2, v2)) => bytes_view(k1) == bytes_view(k2) && bytes_view(v1) == bytes_view(v2),
+        (Leaf::Bucket(n1, m1), Leaf::Bucket(n2, m2)) => bytes_view(n1) == bytes_view(n2) && m1 == m2,
+        _ => false,
+    }
 }
